@@ -422,4 +422,40 @@ MUTATIONS = [
                         pathreq.tsp_mode = mode['format']""", """                    elif pathreq.blocking_reason in BLOCKING_NOMODE:
                         pathreq.baud_rate = mode['baud_rate']
                         pathreq.tsp_mode = pathreq.tsp_mode""")]},
+    {'id': 'c20-west-loss-from-east', 'props': ['C20'], 'tests': 'tests/test_parser.py',
+     'desc': 'west fibre built with the east loss coefficient',
+     'edits': [('gnpy/tools/convert.py', "                   'loss_coef': fiber.west_lineic,", "                   'loss_coef': fiber.east_lineic,")]},
+    {'id': 'c20-ila-direction-swapped', 'props': ['C20'], 'tests': 'tests/test_parser.py',
+     'desc': 'ILA amplifier settings land on the amplifier of the opposite direction',
+     'edits': [('gnpy/tools/convert.py', "                if e.to_city != to_city:\n                    direction = rev_direction",
+                "                if e.to_city == to_city:\n                    direction = rev_direction")]},
+    {'id': 'c20-blank-loose-is-strict', 'props': ['C20'], 'tests': 'tests/test_parser.py',
+     'desc': 'a blank "is loose?" cell is read as strict',
+     'edits': [('gnpy/tools/service_sheet.py', "                self.is_loose = v in ['', None, 'yes', 'Yes', 'YES']", "                self.is_loose = v in ['yes', 'Yes', 'YES']")]},
+    {'id': 'c20-duplicate-eqpt-accepted', 'props': ['C20'], 'tests': 'tests/test_logger.py',
+     'desc': 'duplicate Eqpt lines no longer rejected',
+     'edits': [('gnpy/tools/convert.py', "                if nodea_nodez in possible_eqpt:\n                    duplicate_eqpt.append",
+                "                if nodea_nodez in possible_eqpt and False:\n                    duplicate_eqpt.append")]},
+    {'id': 'c20-west-defaults-not-east', 'props': ['C20'], 'tests': 'tests/test_parser.py',
+     'desc': 'missing west connector values fall back to the class default instead of the east value',
+     'edits': [('gnpy/tools/convert.py', """            v = clean_kwargs.get(k, v)
+            setattr(self, k, v)
+            k = 'west' + k.rsplit('east', maxsplit=1)[-1]
+            v = clean_kwargs.get(k, v)
+            setattr(self, k, v)
+
+    def __eq__(self, link):""", """            dflt = v
+            v = clean_kwargs.get(k, v)
+            setattr(self, k, v)
+            k = 'west' + k.rsplit('east', maxsplit=1)[-1]
+            v = clean_kwargs.get(k, dflt if 'con_' in k else v)
+            setattr(self, k, v)
+
+    def __eq__(self, link):""")]},
+    {'id': 'c20-bandwidth-units', 'props': ['C20'], 'tests': 'tests/test_parser.py',
+     'desc': 'service bandwidth read as Mbit/s',
+     'edits': [('gnpy/tools/service_sheet.py', "            self.path_bandwidth = request_param.path_bandwidth * 1e9", "            self.path_bandwidth = request_param.path_bandwidth * 1e6")]},
+    {'id': 'c20-xlsx-int-impairment', 'props': ['C20'], 'tests': 'tests/test_parser.py',
+     'desc': 'integer impairment id cell of an .xlsx workbook not handled',
+     'edits': [('gnpy/core/utils.py', "    if isinstance(data, (int, float)):", "    if isinstance(data, float):")]},
 ]
